@@ -423,6 +423,8 @@ class Interp:
         self.current_exc = None
         self.module_names = module_names or set()
         self.fnname = fnname
+        self.local_repr = {}  # local name -> f(ctx, value) -> value: representation chosen by the contract for that local
+        self.sym_unpack = False  # opt-in (contract.sym_unpack): unpack a sequence of symbolic length into a fixed number of targets by forking on its length
 
     # ------------------------------------------------------------ exceptions
     def exc_isa(self, name, target):
@@ -642,10 +644,23 @@ class Interp:
 
     def assign(self, t, v, env):
         if isinstance(t, ast.Name):
+            hook = self.local_repr.get(t.id) if self.local_repr else None
+            if hook is not None:
+                # the contract chose another EXACT representation for the values bound to this local (e.g. a list literal that
+                # later grows by a symbolic number of items becomes a symbolic list); the hook returns v unchanged otherwise
+                v = hook(self.ctx, v)
             env.store(t.id, v)
         elif isinstance(t, (ast.Tuple, ast.List)):
-            items = ops.iterate(self.ctx, v)
             star = [i for i, e in enumerate(t.elts) if isinstance(e, ast.Starred)]
+            try:
+                items = ops.iterate(self.ctx, v)
+            except Unsupported:
+                # unpacking a sequence of symbolic length into a fixed number of targets: ValueError unless the lengths agree
+                if star or not self.sym_unpack or not (isinstance(v, Sym) and hasattr(v, 'seq_len') and hasattr(v, 'seq_at')):
+                    raise
+                if not self.ctx.branch(v.seq_len(self.ctx) == len(t.elts)):
+                    raise PyRaise('ValueError', note='unpack a sequence of another length into %d targets' % len(t.elts))
+                items = [v.seq_at(self.ctx, z3.IntVal(k)) for k in range(len(t.elts))]
             if star:
                 k = star[0]
                 nafter = len(t.elts) - k - 1
